@@ -57,6 +57,11 @@ def viSolve (P : Problem α) (c : BatchCfg) (γ thr : α) (t : ConvTest) (f k : 
 
 /-! ### Relative value iteration -/
 
+/-- `RelativeValueIteration._initialize_solver_state_elements`: the gain starts at the last state's initial value -/
+def rviInit (P : Problem α) (c : BatchCfg) : SState α :=
+  let v := initValues P c 0
+  { values := v, iter := 0, policy := none, gain := (v.getLast?).getD 0, hist := none, hidx := 0 }
+
 /-- `RelativeValueIteration._iteration_step`: sweep at the solver's gamma (validated to be 1),
     subtract the previous gain, span against the old values, new gain = last entry -/
 def rviStep (P : Problem α) (c : BatchCfg) (γ ε : α) (s : SState α) : SState α × Bool :=
